@@ -194,6 +194,11 @@ EXTENTS = [
     "(IF a THEN b ELSE c) /\\ d", "e \\/ IF a THEN b ELSE c",
     "ite(a, b, c) + 1 = d", "ite(a /\\ b, c \\/ d, e => f)",
     "LET f == a /\\ b IN f \\/ c", "LET f == a g == f + 1 IN g = 2 /\\ c",
+    "(LET f == a IN f \\/ c) /\\ b", "(LET f == x + 1 IN f < 3) => b",
+    "~ (LET f == a IN f)", "b \\/ (LET f == a IN f /\\ c)",
+    "(LET f == x IN f + 1) = y", "((\\E x: a) => b) /\\ c",
+    "(\\A x: a) \\/ b", "[] (\\A x: a /\\ b)",
+    "(IF a THEN b ELSE c) => d", "ite(a, LET f == b IN f, c)",
     "c /\\ LET f == a IN f \\/ d", "x \\in 1 .. 3 /\\ y \\in -2 .. -1",
     "x + 1 \\in 0 .. 2", "a = -1", "a - 1 = b", "a - -1 = b", "a <= -3 + 2",
     "-X a S b", "--X a /\\ -X b", "-[] a => -<> b", "[] <> a", "<> [] a",
